@@ -118,6 +118,7 @@ type DownloadOpts struct {
 	Hostile   bool // allow non-truth answers
 	Sizes     []uint32
 	ManyPieces bool // >=72 pieces geometry (sparse advertisement branch)
+	InjectCommands bool // post scheduler commands (PeerRequest) straight into peer mailboxes at arbitrary moments
 	AfterCut  func(tr *Tor, step int)
 }
 
@@ -307,6 +308,30 @@ func RunDownload(sw *Swarm, rng *rand.Rand, o DownloadOpts) (tr *Tor, stats map[
 			stats["disconnect"]++
 		case x < 80 && len(tr.Remotes) < 10:
 			newRemote()
+		case x < 83 && o.InjectCommands && r != nil:
+			// a scheduler command that raced with whatever the remote did last: the peer actor must
+			// re-check choke / allowed-fast / advertisement at send time
+			ps, err := tr.T.GetPeers()
+			if err != nil {
+				break
+			}
+			for _, p := range ps {
+				if string(p.Id) != string(r.ID) {
+					continue
+				}
+				var chunks []uint32
+				cpp := uint32(g.PieceLen) / fixture.Block
+				for k := 0; k < 1+rng.IntN(3); k++ {
+					pi := uint32(rng.IntN(np))
+					chunks = append(chunks, pi*cpp+uint32(rng.IntN(g.BlocksIn(int(pi)))))
+				}
+				select {
+				case p.Event <- peer.PeerRequest{Chunks: chunks}:
+					sw.Act("inject PeerRequest %v into %s's actor", chunks, r.Name)
+					stats["inject"]++
+				default:
+				}
+			}
 		case x < 92: // time
 			d := []time.Duration{300 * time.Millisecond, 300 * time.Millisecond, 2500 * time.Millisecond, 6 * time.Second, 31 * time.Second, 70 * time.Second}[rng.IntN(6)]
 			sw.Act("sleep %v", d)
